@@ -1,6 +1,7 @@
 package main
 
 import (
+	"sort"
 	"fmt"
 	"go/token"
 	"go/types"
@@ -432,6 +433,50 @@ func ruleOptionTable(w *World, r *Report, pfx string, want map[string][3]string)
 		}
 		r.Check(bad == "", rule, "option "+ctor, w.pos(fn.Pos()), field+" <- "+val, bad)
 	}
+	// exclusivity: no other option constructor's setter writes a documented field (an option that
+	// "also" sets another option's flag changes bars that never asked for it)
+	var ctors []string
+	for c := range want {
+		ctors = append(ctors, c)
+	}
+	sort.Strings(ctors)
+	for _, ctor := range ctors {
+		owner, field := want[ctor][0], want[ctor][1]
+		allowed := map[string]bool{}
+		for c2, sp := range want {
+			if sp[0] == owner && sp[1] == field {
+				allowed[c2] = true
+			}
+		}
+		bad := ""
+		for _, fn := range w.ModFns {
+			if fn.Pkg != w.Mpb || fn.Parent() == nil {
+				continue
+			}
+			root := rootFn(fn)
+			if root.Signature.Results().Len() != 1 || root.Signature.Recv() != nil {
+				continue
+			}
+			switch typeName(root.Signature.Results().At(0).Type()) {
+			case "mpb.BarOption", "mpb.ContainerOption":
+			default:
+				continue
+			}
+			if allowed[root.Name()] {
+				continue
+			}
+			for _, b := range fn.Blocks {
+				for _, in := range b.Instrs {
+					if st, ok := in.(*ssa.Store); ok {
+						if f, ok := fieldOf(st.Addr); ok && f.Owner == owner && f.Name == field {
+							bad = "option " + root.Name() + " (" + w.instrPos(in) + ") also writes " + field + ", which only " + ctor + " is documented to set"
+						}
+					}
+				}
+			}
+		}
+		r.Check(bad == "", rule, "writers of "+field+" among the options", "", "only "+ctor, bad)
+	}
 }
 
 // ruleMedianReadOnly (C20): medianWindow.Value must not reorder the window it reads (Add relies on
@@ -556,8 +601,8 @@ func ruleThreadSafeAverage(w *World, r *Report, rule string) {
 				}
 			}
 		}
-		rv := p.R(p.Ret[0])
-		inner := stripConv(rv.V)
+		rv := p.stripR(p.Ret[0])
+		inner := rv.V
 		switch already {
 		case triTrue:
 			sawSelf = true
@@ -652,4 +697,85 @@ func ruleThreadSafeAverage(w *World, r *Report, rule string) {
 		r.Check(bad == "", rule, "method "+fnShort(fn), w.pos(fn.Pos()), "wrapped call between Lock and Unlock of the wrapper's mutex", bad)
 	}
 	r.Floor(rule, 4, "constructor and Add, Value, Set")
+}
+
+
+// ruleNoCallerAlias (O-ALIAS): a slice that an option setter stores into the bar / container state is
+// the library's own: built from nil / make by append, never a (re)slice of a slice parameter of
+// the option constructor. A variadic `ds...` shares the caller's backing array, so filtering "in
+// place" (`group := ds[:0]`) makes the bar's decorator group alias memory the caller may reuse
+// for the next bar: earlier bars then render, and notify on shutdown, the later bar's decorators.
+func ruleNoCallerAlias(w *World, r *Report, pfx string) {
+	rule := pfx + ".O-ALIAS"
+	n := 0
+	for _, fn := range w.ModFns {
+		if fn.Pkg != w.Mpb || fn.Parent() == nil {
+			continue
+		}
+		root := rootFn(fn)
+		if root.Signature.Results().Len() != 1 || root.Signature.Recv() != nil {
+			continue
+		}
+		switch typeName(root.Signature.Results().At(0).Type()) {
+		case "mpb.BarOption", "mpb.ContainerOption":
+		default:
+			continue
+		}
+		for _, b := range fn.Blocks {
+			for _, in := range b.Instrs {
+				st, ok := in.(*ssa.Store)
+				if !ok {
+					continue
+				}
+				if _, isSlice := st.Val.Type().Underlying().(*types.Slice); !isSlice {
+					continue
+				}
+				// stored into the state the setter receives
+				addr := st.Addr
+				if ia, ok := addr.(*ssa.IndexAddr); ok {
+					addr = ia.X
+				}
+				f, ok := fieldOf(addr)
+				if !ok || (f.Owner != tBState && f.Owner != tPState) {
+					continue
+				}
+				n++
+				bad := ""
+				seen := map[ssa.Value]bool{}
+				var walk func(v ssa.Value, d int)
+				walk = func(v ssa.Value, d int) {
+					if bad != "" || seen[v] || d > 24 {
+						return
+					}
+					seen[v] = true
+					v = w.origin(v)
+					switch x := v.(type) {
+					case *ssa.Parameter:
+						if _, isSl := x.Type().Underlying().(*types.Slice); isSl {
+							bad = "the stored slice shares the backing array of the constructor's parameter " + x.Name() + " (the caller's memory): a caller that reuses its slice rewrites this bar's " + f.Name
+						}
+					case *ssa.Slice:
+						walk(x.X, d+1)
+					case *ssa.Phi:
+						for _, e := range x.Edges {
+							walk(e, d+1)
+						}
+					case *ssa.Call:
+						if isBuiltinCall(&x.Call, "append") {
+							walk(x.Call.Args[0], d+1)
+						}
+					case *ssa.UnOp:
+						if x.Op == token.MUL {
+							for _, sv := range w.cellStores(x.X) {
+								walk(sv, d+1)
+							}
+						}
+					}
+				}
+				walk(st.Val, 0)
+				r.Check(bad == "", rule, "slice stored into "+f.Owner+"."+f.Name+" by option "+root.Name(), w.instrPos(in), "library-owned backing array", bad)
+			}
+		}
+	}
+	r.Floor(rule, 2, "PrependDecorators, AppendDecorators")
 }
